@@ -41,6 +41,15 @@ CHECKS = {
               "model and implementation (real files, ASan) compared on file bytes, values, counts and statuses for all ten element types."),
         note=TB_COMMON + "OS file layer trusted; host little-endian.",
         technique="Coq proof over a byte-list file model + differential check on real files"),
+    "C18": dict(
+        category="proof", design_ref="DESIGN.md §4 C18",
+        text=("Theorems over the word-level model of the cd_values helpers: for every rank 1..5 (sizes < 2^32, 1-D length < 2^64) the recorded "
+              "element type and shape are decoded exactly, the mode and four doubles of SZ_errConfigToCdArray are recovered bit-exactly at the "
+              "rank-dependent offset, error words are detected iff present, and the composition with the (generated) dimension filter yields the "
+              "SZ tuple of the HDF5 chunk shape; the legacy helper's reversal is a refuted statement. Model and C helpers are compared word for "
+              "word; datasets of all ten types and ranks 1..5 with partial/size-1 chunks go through filter 32017 and the bound is checked."),
+        note=TB_COMMON + "HDF5 1.10.8 trusted; the dataset round trip is explored (exploration), only the parameter packing is proved; REL bounds only judged on evenly divided chunks.",
+        technique="Coq proof over a word-list model + differential check of the exported helpers + end-to-end HDF5 round trips"),
 }
 
 NOT_YET = {}
